@@ -262,6 +262,20 @@ func BaseObject(v ssa.Value) (ssa.Value, string) {
 	}
 }
 
+// ResultValue returns the i-th returned value of ret, looking through the spill that
+// go/ssa inserts for functions with deferred calls (`*res = v; rundefers; return *res`).
+func ResultValue(ret *ssa.Return, i int) ssa.Value {
+	v := ret.Results[i]
+	if ld, ok := v.(*ssa.UnOp); ok && ld.Op == token.MUL {
+		if al, ok := ld.X.(*ssa.Alloc); ok {
+			if sv := LastStoreBefore(al, ld); sv != nil {
+				return sv
+			}
+		}
+	}
+	return v
+}
+
 // ParamOf resolves v to a function parameter: v itself, or a load of the local variable
 // a parameter was spilled to (parameters captured by closures live in memory and are
 // never reassigned when their variable has a single store).
